@@ -58,3 +58,12 @@ int index_of(const std::vector<int>& v, int x) {
     return int(it - v.begin()) + *it;
 }
 }   // namespace dsplib
+namespace dsplib {
+// a search over the first n-1 slots: "not found" is the last slot, a valid element
+double* slot_of(double* x, int n, double v) {
+    double* const last = x + (n - 1);
+    double* const p = std::find(x, last, v);
+    *p = v;
+    return p;
+}
+}   // namespace dsplib
